@@ -391,6 +391,15 @@ pub fn gen_cases(profile: &str, seed: u64, b: &Budget) -> Vec<Case> {
                         cfg = Cfg { block_size: bs, use_lpc: idx % 10 == 2, max_parameter: 14,
                                     partitions: if idx % 15 == 2 { Some(16) } else { None }, fixed_max_order: [4usize, 0, 2][(idx / 5) % 3], ..Cfg::default() };
                         wide = Some(1);
+                    } else if idx % 10 == 9 {
+                        // blocks that admit ONE partition only (odd or short lengths) with loud smooth content:
+                        // predictor order > 0, the warm-up samples must not enter the choice of the parameter
+                        family = ["ramp", "sine", "poly", "step", "nyqsmooth"][(idx / 10) % 5].to_string();
+                        bs = [65usize, 97, 127, 101, 191, 333, 1001][(idx / 10) % 7];
+                        cfg = Cfg { block_size: bs, use_lpc: idx % 20 == 9, max_parameter: 14, partitions: if idx % 30 == 9 { Some(16) } else { None },
+                                    ..Cfg::default() };
+                        bps = [16usize, 24, 12, 20][(idx / 10) % 4];
+                        wide = Some(1);
                     } else if idx % 5 == 1 {
                         // partition-order cost curve with a local minimum at the 64-sample scale and the
                         // global one far coarser; the signal is its own residual (fixed order 0 allowed only)
